@@ -1,7 +1,7 @@
 SPEC = {
     "id": "C09",
     "harness": "c09",
-    "n": {"quick": 1200, "thorough": 24000},
+    "n": {"quick": 1500, "thorough": 24000},
     "shard": 170,
     "tie_codes": (),
     "trusted_base": [
@@ -36,15 +36,16 @@ SPEC = {
 MANIFEST = {
     "text": "Coq theorems over a line-by-line Gallina port of CreateAnonymousBox (table fix-up rules 1.1-3.2, wrapTable with grid-slot "
             "assignment, flex/grid blockification, InlineInBlock, BlockInInline with its resume stacks): each pass establishes its part of the "
-            "well-formedness specification Box/BoxWf.wf (block containers: only block-level boxes or one line box; inline/line boxes: only "
+            "well-formedness specification Box/BoxWf.wf and the whole never panics and terminates (block containers: only block-level boxes or one line box; inline/line boxes: only "
             "inline-level or out-of-flow boxes; tables in wrappers with captions, column groups, row groups > rows > cells; flex/grid items "
             "blockified; text/replaced boxes childless), composition create_anonymous_wf; grid slots: totality, rowspans clipped, least free "
             "column, no cell over a later cell's anchor column, disjointness when colspans are 1, and a proved REFUTATION of full disjointness "
             "(colspan over a row-spanning cell, reproduced on /repo); makeBox's display switch total and correct. On every run the model's tree is "
             "compared node by node with boxes.BuildFormattingStructure on generated documents and wf is evaluated on the implementation's tree.",
-    "note": "Partial: the pass theorems are partial-correctness statements (whenever a tree is returned) for documents without position:running(); "
-            "termination/no-panic of BlockInInline's resumable traversal and of the bounded recursion of tableBoxesChildren are stated "
-            "(C09_*_statement) but not proved; checked by the tie (a crash on one side only is a violation). elementToBox is not modelled: "
+    "note": "C09_create_anonymous_wf is total correctness (always returns, no panic / fuel exhaustion: bounded recursion of tableBoxesChildren, "
+            "wrapTable's byType lookup, InlineInBlock's line-box panic, BlockInInline's resume stacks and termination) AND well-formedness, for "
+            "documents without position:running(); with running elements it is only a statement (C09_create_anonymous_wf_statement) checked by "
+            "the tie (a crash on one side only is a violation). Full slot disjointness is refuted. elementToBox is not modelled: "
             "'display:none generates no box' is proved for makeBox and checked on the implementation's tree. Trusted: Coq kernel (vm_compute), "
             "harness projection, hook html/boxes/verif_export_c09.go.",
     "technique": "Coq proof over executable model + vm_compute correspondence with the Go implementation",
